@@ -201,8 +201,45 @@ func (c *c17) deliver(ch *kernel.Chooser) string {
 	variant := "honest"
 	var cookies []*http.Cookie // nil: use the browser's jar
 	useJar := true
-	x := ch.Int(18)
+	x := ch.Int(21)
+	junk := func(name, plain string) *http.Cookie {
+		switch ch.Int(3) {
+		case 0:
+			return forgeCookie(c.other, name, plain) // minted by the other application
+		case 1:
+			return &http.Cookie{Name: name, Value: "garbage-" + plain}
+		default:
+			if g := forgeCookie(c.rp, name, plain); g != nil && len(g.Value) > 8 {
+				return &http.Cookie{Name: name, Value: g.Value[:len(g.Value)-6]} // cut short
+			}
+			return &http.Cookie{Name: name, Value: "x"}
+		}
+	}
 	switch {
+	case x == 18 || x == 19:
+		// a state cookie that does not verify together with a callback that has no (or an empty) state parameter:
+		// "nothing" on both sides is not a match
+		variant, useJar = "junk-state-cookie+no-state-param", false
+		cookies = []*http.Cookie{junk("state", a.state)}
+		if a.pkceCk != nil {
+			cookies = append(cookies, a.pkceCk)
+		}
+		u, _ := url.Parse(cbURL)
+		q := u.Query()
+		if x == 18 {
+			q.Del("state")
+		} else {
+			q.Set("state", "")
+		}
+		u.RawQuery = q.Encode()
+		cbURL = u.String()
+	case x == 20:
+		// the genuine state cookie, and a pkce cookie that does not verify
+		variant, useJar = "junk-pkce-cookie", false
+		if a.stateCk != nil {
+			cookies = append(cookies, a.stateCk)
+		}
+		cookies = append(cookies, junk("pkce", a.verifier))
 	case x < 5:
 	case x >= 16: // the state parameter is another spelling of the cookie's state: equal only after a further decoding step
 		variant = "respelled-state-param"
@@ -607,13 +644,22 @@ func RunC17(t *testing.T, spec kernel.Spec) *kernel.Outcome {
 			obk = bk // the encryption key is shared (or absent on both sides)
 		}
 		o.Probe("cookie-keys-of-the-other-application:" + relation)
+		// cookie attributes hardly anybody sets: an explicit Domain (the application's own host) and SameSite
+		cookieDomain, sameSite := "", http.SameSite(0)
+		if kc.Bool(1, 3) {
+			cookieDomain = c.host()
+			o.Probe("cookie-handler-with-a-domain")
+		}
+		if kc.Bool(1, 3) {
+			sameSite = []http.SameSite{http.SameSiteLaxMode, http.SameSiteStrictMode, http.SameSiteNoneMode}[kc.Int(3)]
+		}
 		userinfoCB := kc.Bool(1, 3)
 		if userinfoCB {
 			o.Probe("worlds-with-the-userinfo-callback")
 		}
 		mk := func(h, b []byte) (*world.RPNode, error) {
 			return world.BuildRP(context.Background(), w, world.RPOptions{Client: c.client, Secret: secret, Host: c.host(), Redirect: "https://" + c.host() + "/callback", Signer: signer,
-				Scopes: []string{oidc.ScopeOpenID, oidc.ScopeEmail}, PKCE: pkce, Cookies: true, HashKey: h, BlockKey: b, NoBlockKey: blockLen == 0, UserinfoCB: userinfoCB, AuthStyle: style, SigAlgs: []string{string(w.SigAlg)}, MaxAge: c.maxAge})
+				Scopes: []string{oidc.ScopeOpenID, oidc.ScopeEmail}, PKCE: pkce, Cookies: true, HashKey: h, BlockKey: b, NoBlockKey: blockLen == 0, UserinfoCB: userinfoCB, CookieDomain: cookieDomain, CookieSameSite: sameSite, AuthStyle: style, SigAlgs: []string{string(w.SigAlg)}, MaxAge: c.maxAge})
 		}
 		c.other, err = mk(ohk, obk)
 		if err == nil {
